@@ -247,7 +247,7 @@ def _semantic(p, led, lys, res, Q):
     probs, npaths = [], 0
     for cap in (2, 3, 4):
         for k in range(0, cap + 1):
-            for thr in (100, cap):           # never / exactly at capacity
+            for thr in sorted({100, cap, 1, 2}):           # never / exactly at capacity / at the very first items
                 def go(o, _cap=cap, _k=k, _thr=thr):
                     types = [ADV if i % 2 == 0 else PLAIN for i in range(_k)] + [ADV]
                     it, L, ws, log = build(o, _cap, _thr, types)
@@ -262,6 +262,10 @@ def _semantic(p, led, lys, res, Q):
                 try:
                     paths = [r for _, r in explore(go, max_paths=600)]
                 except Imprecise as e:
+                    if "exceeds" in str(e) and "iterations" in str(e) and "unmodelled" not in str(e):
+                        # a loop over concrete state that makes no progress: the call does not return
+                        probs.append(f"max_queue_size={cap}, {k} queued, auto_digest_threshold={thr}: ingest does not return ({e})")
+                        continue
                     raise AnchorError(f"Lysosome.ingest could not be interpreted: {e}")
                 npaths += len(paths)
                 for r in paths:
